@@ -14,7 +14,7 @@ NA = {
 TEXT = {
  "C01": ("exploration", "seeded histories of create / whole write / region assign (directly and through DataViews) / append along any axis / resize on arrays of all 12 element types, rank 1-4, zero extents, extreme values, file x block x array compression, with clean restarts (RO/RW) at arbitrary points; every read path (incl. views obtained earlier) compared with a NumPy reference array after each op and after each reopen", "4 C01"),
  "C02": ("exploration", "seeded histories over all entity kinds, attributes, links, deletes, property values, through many handles per entity; at every restart the introspective walk (every public property of every entity) before close must equal the walk after reopen (RO and RW) and the explicit walk must equal the reference model", "4 C02"),
- "C03": ("exploration", "create/delete storms in every container with adversarial names (sort order, non-ASCII, 5 kB, UUID-like), restarts; after each op all access paths of every container (len, iteration, [i], [-i], [name], [id], in, items) must describe the model sequence; ids well-formed, unique, stable", "4 C03"),
+ "C03": ("exploration", "create/delete storms in every container with adversarial names (sort order, non-ASCII, 5 kB, UUID-like), restarts; after each op all access paths of every container (len, iteration, [i], [-i], [name], [id], in, items) must describe the model sequence; ids well-formed, unique, stable - also the ids handed out by a fresh-id copy of an entity that owns others (terminating experiment)", "4 C03"),
  "C04": ("exploration", "link-rich topologies (one target linked from many lists/roles, equal names in several parents and blocks); delete by name/id/index/object or unlink; whole-file walk must equal the model in which ownership closure and every link to it are removed and nothing else changed", "4 C04"),
  "C05": ("exploration", "mutate an entity through one access path (direct, link lists, role links, metadata, dimension link, old handles, old descriptor objects) and read it through all others (same content, ==, hash) in the same session and after restart; dimension links follow the target; refused appends (wrong kind, foreign block with/without namesake) leave the list unchanged", "4 C05"),
  "C10": ("exploration", "property value histories (assign/extend/clear through scalars, lists, tuples, numpy arrays), refused candidates (other type, mixed with the odd element at any position, bool/int confusion), dict-style section API, restarts; typed-list reference model", "4 C10"),
